@@ -7,6 +7,11 @@ from . import fields as F
 from .fieldops import check_op, MachineryError
 
 QUICK = ["gf25519", "gf255e", "gfsecp256k1", "gf448", "gfp256", "sc25519", "sc448"]
+# obligations that do not close within the tier budget on the unchanged tree
+# (measured; see DESIGN.md section 8) -- not posed, listed as outside the claim
+DEFER = {("gfp256", "mul"), ("gfp256", "square"), ("sc25519", "square"), ("sc25519", "xsquare2"),
+         ("sc448", "mul"), ("sc448", "square"), ("sc448", "xsquare2"), ("sc448", "mul_small"),
+         ("gfp256", "xsquare2")}
 
 
 def drivers_for(fields):
@@ -28,7 +33,8 @@ def run(tier, only=None):
     if only:
         fields = [f for f in F.FIELDS if f.tag in only]
     built = build(drivers_for(fields), tag="C01-default")
-    items = [(f, op) for f in fields for op in f.ops]
+    items = [(f, op) for f in fields for op in f.ops if (f.tag, op) not in DEFER or only]
+    deferred = ["%s.%s" % (f.tag, op) for f in fields for op in f.ops if (f.tag, op) in DEFER and not only]
     timeout = 100 if tier == "quick" else 900
 
     def work(it):
@@ -58,5 +64,6 @@ def run(tier, only=None):
                                "moduli and representation conventions in props/fields.py (from the standards)",
                                "transmute between the field struct and its limb array preserves layout (validated natively)"],
                   outside=["binary fields GF(2^127)/GF(2^254): see evidence notes", "w32/m51/clmul backends: C18",
-                           "xsquare n>2", "primality of moduli"],
+                           "xsquare n>2", "primality of moduli",
+                           "deferred (no certificate within budget): " + ", ".join(deferred)],
                   machinery_error=merr)
